@@ -430,6 +430,20 @@ FocusMgr ==
   /\ e.op = "response" => e.ck # 0
 EmitFocus == FocusMgr /\ EmitEdge
 EmitLeaf == (Gen /\ steps' = MaxSteps) => PrintT(ToJson([steps |-> hist']))
+\* focus for HISTORY generation of the endpoint (no VIEW): the peer makes a record - application data, or a path_response that
+\* carries the cookie issued last - and that record arrives exactly once from some address.  Long enough for an address to be
+\* validated, left for another validated address and come back (a1 -> a2 -> a3 -> a2): whether an address was validated
+\* EARLIER on the connection must not matter.
+FocusConn ==
+  LET e == hist'[Len(hist')] IN
+  /\ e.act.op \in {"make", "deliver"}
+  /\ e.act.op = "make" => /\ (hist = <<>> \/ hist[Len(hist)].act.op = "deliver")
+                          /\ e.rec.cid = "ok"
+                          /\ (e.rec.kind = "resp" => (nck > 1 /\ e.rec.ck = nck - 1))
+                          /\ (e.rec.kind = "chal" => FALSE)
+  /\ e.act.op = "deliver" => /\ hist # <<>> /\ hist[Len(hist)].act.op = "make"
+                             /\ e.act.s = pseq
+EmitFocusConn == FocusConn /\ EmitLeaf
 
 -----------------------------------------------------------------------------
 (* C15 *)
